@@ -32,9 +32,14 @@ Reissued(P, cert) ==
 
 UtcRec(t) == LET u == Utc(t) IN [y |-> u.y, mo |-> u.mo, d |-> u.d, h |-> u.h, mi |-> u.mi, s |-> u.s]
 
+(* the attribute types the API names (DnType::CountryName ... CommonName); every other OID comes back as a custom type *)
+NamedDnTypeOids == {"2.5.4.6", "2.5.4.7", "2.5.4.8", "2.5.4.10", "2.5.4.11", "2.5.4.3"}
+NamedTypesRecovered(q) == \A i \in DOMAIN q.dn : q.dnStd[i] = (q.dn[i].ty \in NamedDnTypeOids)
+
 ReqImportRcgen(a, o) ==
   LET P == a.src  q == o.params IN {
   <<"C17.dn_eq", q.dn = P.dn>>,
+  <<"C17.named_attribute_types_recovered_as_named", NamedTypesRecovered(q)>>,
   <<"C17.is_ca_and_pathlen_eq", q.isCa = P.isCa>>,
   <<"C17.ku_set_eq", SeqRange(q.ku) = SeqRange(P.ku)>>,
   <<"C17.eku_std_set_eq", SeqRange(q.eku) = SeqRange(StdOnly(P.eku))>>,
@@ -59,6 +64,7 @@ ReqImportForeign(a, out, o) ==
   \cup
   (IF out = "Ok" THEN {
      <<"C03.import_fails_or_preserves_name", o.params.dn = a.cert.subject /\ ~a.cert.subjectMulti>>,
+     <<"C17.named_attribute_types_recovered_as_named", NamedTypesRecovered(o.params)>>,
      <<"C17.is_ca_and_pathlen_eq", o.params.isCa = [k |-> "Ca", pl |-> a.src.pathlen]>>,
      <<"C17.ku_set_eq", SeqRange(o.params.ku) = SeqRange(a.src.ku)>>,
      <<"C17.serial_eq", o.params.serial.k = "given" /\ StripZeros(o.params.serial.b) = StripZeros(a.src.serial)>>,
